@@ -1,6 +1,7 @@
 import PestModel.Model.Grammar
 import PestModel.Lemmas.MetaRules
 import PestModel.Lemmas.ReaderNoPanic
+import PestModel.Lemmas.ReaderAgree
 /-!
 # C09 — the grammar front-end is total
 
@@ -75,6 +76,21 @@ theorem frontend_no_panic (extras : Bool) (text : PestModel.LineCol.Str) :
     exact this hc
   · simp
   · simp
+
+open PestModel.ReaderP in
+/-- **The two reader models are one reader**: on every text the three-valued model (`ReaderP`, this file) and the two-valued
+model the C07 theorems are about (`ReaderFull`) return the same rules, or both none. -/
+theorem readerP_agrees (extras : Bool) (text : PestModel.LineCol.Str) :
+    (readGrammar extras text).map R3.toOption = PestModel.ReaderFull.readGrammarOutcome extras text := by
+  unfold readGrammar PestModel.ReaderFull.readGrammarOutcome
+  cases hm : PestModel.Ref.meaning PestModel.Gen.Meta.rules false PestModel.ReaderFull.noUni 1000000 "grammar_rules" text with
+  | ok s' forest =>
+    simp only [Option.map_some]
+    exact congrArg some (PestModel.ReaderAgree.consumeRules_ag extras text forest
+      (consume_rules_no_panic extras text forest (meta_pairs_shape text _ s' forest hm)))
+  | fail => rfl
+  | stuck => rfl
+  | fuel => rfl
 
 /-! non-vacuity: the pairs of `a={b}` (written out) have the shape, so the hypothesis of `consume_rules_no_panic` is met
 by a real forest. -/
